@@ -214,14 +214,23 @@ func (g *gcurve) priv(d *big.Int, p ref.Point) *sm2.PrivateKey {
 }
 
 func (g *gcurve) exchange(priv *sm2.PrivateKey, peer *ecdsa.PublicKey, uid, peerUID []byte, klen int, conf, late bool) (*sm2.KeyExchange, error) {
+	// both identities are views into one message-like buffer (see frame in
+	// history_test.go), peer's id before the own one when the peer comes late
+	f, v := newFrame(late, [][]byte{uid, peerUID})
+	var ke *sm2.KeyExchange
+	var err error
 	if !late {
-		return sm2.NewKeyExchange(priv, peer, cp(uid), cp(peerUID), klen, conf)
+		ke, err = sm2.NewKeyExchange(priv, peer, v[0], v[1], klen, conf)
+	} else if ke, err = sm2.NewKeyExchange(priv, nil, v[0], nil, klen, conf); err == nil {
+		err = ke.SetPeerParameters(peer, v[1])
 	}
-	ke, err := sm2.NewKeyExchange(priv, nil, cp(uid), nil, klen, conf)
-	if err != nil {
-		return nil, err
+	if !bytes.Equal(f.buf, f.orig) {
+		return nil, fmt.Errorf("NewKeyExchange/SetPeerParameters wrote into the caller's buffer holding uid and peerUID")
 	}
-	return ke, ke.SetPeerParameters(peer, cp(peerUID))
+	if err != nil && !late {
+		return ke, err
+	}
+	return ke, err
 }
 
 func checkCurve(c curveCase, r *h.Rec) error {
